@@ -36,11 +36,43 @@ def hdr_value(rng, name):
     return bytes(body)
 
 
-def headers(rng, maxn=3, pool=None):
-    """distinct names up to case, 1-3 values each ("repeated" = several values under one name)"""
+def recase(rng, name):
+    """the same name up to letter case (never equal to the input when it has a letter)"""
+    for _ in range(8):
+        out = "".join(c.upper() if rng.random() < 0.5 else c.lower() for c in name)
+        if out != name:
+            return out
+    return name.swapcase()
+
+
+def headers(rng, maxn=3, pool=None, must=()):
+    """distinct names up to case, 1-3 values each ("repeated" = several values under one name); the names in
+    `must` (any letter case) are always there"""
     pool = pool or NAME_POOL
-    names = rng.sample(pool, rng.randint(0, min(maxn, len(pool))))
+    names = list(must)
+    taken = {n.lower() for n in names}
+    for n in rng.sample(pool, rng.randint(0, min(maxn, len(pool)))):
+        if n.lower() not in taken:
+            if rng.random() < 0.25:
+                n = recase(rng, n)
+            names.append(n)
+            taken.add(n.lower())
+    rng.shuffle(names)
     return [[n, [hdr_value(rng, n) for _ in range(rng.choice([1, 1, 2, 3]))]] for n in names]
+
+
+def overlapping(rng, hs, mode=None):
+    """trailers that share one or two names with the headers `hs`: in the same letter case, in another one, or both"""
+    if not hs:
+        hs.extend(headers(rng, maxn=2, must=[rng.choice(NAME_POOL)]))
+    picked = rng.sample([h[0] for h in hs], min(len(hs), rng.choice([1, 1, 2])))
+    must = []
+    for i, n in enumerate(picked):
+        m = mode or rng.choice(["same", "case"])
+        if m == "both":
+            m = "same" if i == 0 else "case"
+        must.append(n if m == "same" else recase(rng, n))
+    return headers(rng, maxn=2, must=must)
 
 
 def payload(rng, i=None):
@@ -60,36 +92,73 @@ def error(rng):
     return [rng.randint(1, 16), msg, dets]
 
 
-def definition(rng, st, nresp=None, err=None):
+def definition(rng, st, nresp=None, err=None, overlap=None, ndata=None):
+    """overlap: None = names of headers and trailers drawn independently (they overlap now and then) and forced to
+    overlap in four of ten definitions; "same" / "case" / "both" = forced, in that letter-case relation"""
     if st in (UNARY, CLIENT):
-        data = [payload(rng)] if rng.random() < 0.8 else []
+        data = [payload(rng)] if (ndata if ndata is not None else rng.random() < 0.8) else []
     else:
         n = nresp if nresp is not None else rng.choice([0, 1, 1, 2, 3, 4, 5])
         data = [payload(rng) for _ in range(n)]
     e = []
     if err is True or (err is None and rng.random() < 0.35):
         e = [error(rng)]
-    # names may overlap between headers and trailers
-    return [headers(rng), headers(rng), data, e]
+    hs = headers(rng)
+    if overlap is not None or rng.random() < 0.4:
+        ts = overlapping(rng, hs, overlap)
+    else:
+        ts = headers(rng)
+    return [hs, ts, data, e]
 
 
-def wf_test(rng, name, st=None, nreq=None, nresp=None, err=None, with_def=None):
+# where the response definitions of a multi-request stream sit.  service.proto: "Servers should only read the response
+# definition from the first message in the stream and should ignore any definition set in subsequent messages" (and the
+# same for full_duplex): the expectation generator and every handler must honour the FIRST message's definition only
+DEF_MODES = ["first", "first", "first", "first", "first+later", "first+later", "later", "later", "all", "none"]
+
+
+def wf_test(rng, name, st=None, nreq=None, nresp=None, err=None, with_def=None, defs=None, overlap=None, code=None, ndet=None,
+            reqhdrs=None):
     st = st or rng.choice([UNARY, UNARY, CLIENT, CLIENT, SERVER, SERVER, HALF, HALF, FULL, FULL, FULL])
     if st in (UNARY, SERVER):
         nreq = 1
     elif nreq is None:
-        nreq = rng.choice([0, 1, 1, 2, 2, 3, 4])
+        nreq = rng.choice([0, 1, 1, 2, 2, 3, 4, 6])
+    if defs is None:
+        if with_def is True:
+            defs = rng.choice(["first", "first", "first", "first+later", "all"])
+        elif with_def is False:
+            defs = rng.choice(["none", "none", "later"])
+        else:
+            defs = rng.choice(DEF_MODES)
+    if nreq == 1 and defs == "later":
+        defs = "none"
+    later = []
+    if defs in ("first+later", "later") and nreq > 1:
+        later = rng.sample(range(1, nreq), rng.randint(1, min(3, nreq - 1)))
+    elif defs == "all":
+        later = list(range(1, nreq))
     reqs = []
     for i in range(nreq):
         d = []
         if i == 0:
-            if with_def is True or (with_def is None and rng.random() < 0.9):
-                d = [definition(rng, st, nresp, err)]
-        elif rng.random() < 0.15:
-            d = [definition(rng, st)]       # ignored by the servers: only the first message defines the response
-        data = bytes([i]) + payload(rng)    # distinct per position
-        reqs.append([KIND_OF[st], 1 if st == FULL else 0, data, d])
-    return [name, st, headers(rng), reqs]
+            if defs in ("first", "first+later", "all"):
+                d = [definition(rng, st, nresp, err, overlap)]
+                if d[0][3] and code is not None:
+                    d[0][3][0][0] = code
+                if d[0][3] and ndet is not None:
+                    e = d[0][3][0]
+                    while len(e[2]) < ndet:
+                        e[2].append([rng.randint(0, 1), rng.choice([b"", b"detail", "d\u00e9tail".encode()])])
+                    del e[2][ndet:]
+        elif i in later:
+            # ignored by every peer and by the expectation: a different definition (other data, metadata, error or none)
+            d = [definition(rng, st, None, None if rng.random() < 0.5 else True)]
+        data = bytes([i % 256]) + payload(rng)    # distinct per position
+        # full_duplex is read from the first message only: later messages may say anything
+        full = (1 if st == FULL else 0) if (i == 0 or KIND_OF[st] != 3 or rng.random() < 0.7) else rng.randint(0, 1)
+        reqs.append([KIND_OF[st], full, data, d])
+    return [name, st, headers(rng) if reqhdrs is None else reqhdrs, reqs]
 
 
 def t_stype(t): return t[1]
@@ -171,6 +240,67 @@ def malformed_test(rng, name):
     return t
 
 
+def targeted_tests(rng, gs):
+    """three batches of shapes that every run must contain (for every pair of peers): A. counts of requests and responses,
+    zero and many requests, every stream type; B. header/trailer names that overlap, -bin names in every position,
+    definitions on later requests; C. every error code, 0-3 details, over all five stream types"""
+    T = wf_test
+    a = [
+        T(rng, "more-responses", st=FULL, nreq=2, nresp=5, err=False, defs="first"),
+        T(rng, "more-requests-error", st=FULL, nreq=4, nresp=2, err=True, defs="first"),
+        T(rng, "half-immediate-error", st=HALF, nreq=3, nresp=0, err=True, defs="first"),
+        T(rng, "fd-immediate-error-1", st=FULL, nreq=1, nresp=0, err=True, defs="first"),
+        T(rng, "cs-error", st=CLIENT, nreq=3, err=True, defs="first"),
+        T(rng, "ss-error-after", st=SERVER, nresp=3, err=True, defs="first"),
+        T(rng, "ss-immediate-error", st=SERVER, nresp=0, err=True, defs="first"),
+        T(rng, "ss-none", st=SERVER, nresp=0, err=False, defs="first"),
+        T(rng, "unary-error", st=UNARY, err=True, defs="first"),
+        T(rng, "unary-no-def", st=UNARY, defs="none"),
+        T(rng, "no-def", st=HALF, nreq=2, defs="none"),
+        T(rng, "cs-many", st=CLIENT, nreq=7, defs="first"),
+        T(rng, "cs-many-20", st=CLIENT, nreq=20, err=False, defs="first"),
+        T(rng, "fd-many", st=FULL, nreq=6, nresp=6, defs="first"),
+        T(rng, "fd-many-12", st=FULL, nreq=12, nresp=12, err=True, defs="first"),
+        T(rng, "hd-many-10", st=HALF, nreq=10, nresp=4, defs="first"),
+        T(rng, "ss-many-9", st=SERVER, nresp=9, defs="first"),
+    ]
+    if not gs:      # zero requests against the grpc-go server: known hang class (thorough tier, batch of its own)
+        a += [T(rng, "cs-zero", st=CLIENT, nreq=0), T(rng, "fd-zero", st=FULL, nreq=0), T(rng, "hd-zero", st=HALF, nreq=0)]
+    b = []
+    # names shared by response headers and trailers: same letter case / another one / one of each; data and error
+    for st, sn in [(UNARY, "unary"), (CLIENT, "cs")]:
+        for err in (True, False):
+            for ov in ("same", "case", "both"):
+                b.append(T(rng, "%s-%s-overlap-%s" % (sn, "err" if err else "data", ov), st=st, nreq=(1 if st == UNARY else 2),
+                           err=err, defs="first", overlap=ov))
+    b.append(T(rng, "ss-overlap", st=SERVER, nresp=2, err=True, defs="first", overlap="both"))
+    b.append(T(rng, "hd-overlap", st=HALF, nreq=2, nresp=0, err=True, defs="first", overlap="both"))
+    b.append(T(rng, "fd-overlap", st=FULL, nreq=2, nresp=2, err=False, defs="first", overlap="both"))
+    # -bin names as request header, response header and response trailer at once (lower and mixed case)
+    for st, sn in [(UNARY, "unary"), (CLIENT, "cs"), (SERVER, "ss"), (HALF, "hd"), (FULL, "fd")]:
+        t = T(rng, "%s-bin-everywhere" % sn, st=st, nreq=(1 if st in (UNARY, SERVER) else 2), nresp=2, defs="first",
+              err=(st in (UNARY, HALF)), reqhdrs=headers(rng, maxn=1, must=["x-req-bin", "X-Mixed-Bin"]))
+        d = t[3][0][3][0]
+        d[0] = headers(rng, maxn=1, must=["x-data-bin", "X-Rsp-BIN"])
+        d[1] = headers(rng, maxn=1, must=[rng.choice(["x-data-bin", "X-Data-Bin"]), "x-trl-bin"])
+        b.append(t)
+    # the definition that counts is the first message's: later only / several different ones / first and later / none
+    for st, sn in [(CLIENT, "cs"), (HALF, "hd"), (FULL, "fd")]:
+        b.append(T(rng, "%s-def-later-only" % sn, st=st, nreq=3, defs="later"))
+        b.append(T(rng, "%s-def-second-only" % sn, st=st, nreq=2, defs="later"))
+        b.append(T(rng, "%s-def-all-different" % sn, st=st, nreq=4, defs="all", nresp=(2 if st != CLIENT else None), err=False))
+        b.append(T(rng, "%s-def-first-and-later" % sn, st=st, nreq=3, defs="first+later", nresp=(1 if st != CLIENT else None), err=True))
+        b.append(T(rng, "%s-def-none" % sn, st=st, nreq=3, defs="none"))
+    c = []
+    sts = [UNARY, CLIENT, SERVER, HALF, FULL]
+    for code in range(1, 17):
+        st = sts[(code + rng.randrange(5)) % 5] if code > 5 else sts[code - 1]
+        nresp = None if st in (UNARY, CLIENT) else rng.choice([0, 1, 2])
+        nreq = 1 if (st == FULL and nresp == 0) else (None if st in (UNARY, SERVER) else rng.choice([1, 2, 3]))
+        c.append(T(rng, "code-%d" % code, st=st, nreq=nreq, nresp=nresp, err=True, defs="first", code=code, ndet=code % 4))
+    return [a, b, c]
+
+
 class C02(Prop):
     id = "C02"
     props = "C02_Props"
@@ -182,11 +312,16 @@ class C02(Prop):
     rule = ("c02.expect: every (stream type x 0-3 requests x 0-3 responses x error x definition present) shape plus seeded random "
             "suites of 1-4 cases, a third of them outside the well-formed fragment (wrong message type, stream type 0/6/7, no name, "
             "duplicate names, no requests, surplus requests) through the real parseTestSuites + newTestCaseLibrary; "
-            "c02.live: seeded random well-formed cases (all five stream types, 0-4 requests, 0-5 responses incl. more responses than "
+            "c02.live: seeded random well-formed cases (all five stream types, 0-6 requests, 0-5 responses incl. more responses than "
             "requests, empty and 1-300 byte payloads, errors of every code with/without message and 0-3 details after 0..n responses, "
-            "headers/trailers with 1-3 values, mixed case, -bin, overlapping names) run by the real runTestCasesForServer against the "
-            "in-process reference server / grpc-go server with the reference / grpc-go client under {HTTP/1.1,h2c} x 3 protocols x "
-            "{proto,json} x {identity,gzip} (thorough: six compressions, TLS); compared: verdict (pass) and projected observed result. "
+            "headers/trailers with 1-3 values, mixed case, -bin, names shared by headers and trailers in the same or another letter "
+            "case, the response definition on the first / a later / several / no request, any full_duplex flag on later requests) "
+            "plus three targeted batches per peer pair on every run (request/response counts incl. zero and 20 requests; overlapping "
+            "names for unary and client-stream with data and with error; -bin names as request header, response header and trailer at "
+            "once; definitions on later requests only; every error code 1-16 with 0-3 details) run by the real runTestCasesForServer "
+            "against the in-process reference server / grpc-go server with the reference / grpc-go client under {HTTP/1.1,h2c} x 3 "
+            "protocols x {proto,json} x {identity,gzip} (thorough: six compressions, TLS); compared: verdict (pass) and projected "
+            "observed result (metadata projected on every name ANY request's definition declares). "
             "non-trivial = at least one permutation ran / at least one expectation was derived")
     trusted_base = ("Coq 8.16.1 kernel", "extraction (ExtrOcamlBasic only) + ocaml/driver.ml", "vlib generators/comparator, Go overlay harness files",
                     "C03's model of results.go assert (tied to the code by C03's own check)",
@@ -195,7 +330,7 @@ class C02(Prop):
                    "in order up to comma joining; on a failed unary/client-stream call connect-go's error metadata carries per name the header values "
                    "followed by the trailer values; messages, their order, error code/message/details arrive unchanged; the handler sees the client's "
                    "headers under the same rule - validated by sampling on every run, not proved",
-                   "header names are HTTP tokens outside the protocol-reserved set, distinct up to case within a list; values visible ASCII without comma or edge whitespace",
+                   "header names are HTTP tokens outside the protocol-reserved set, distinct up to case within ONE list (a repeated key is one Header entry with several values, as service.proto says; headers and trailers may share names); values visible ASCII without comma or edge whitespace",
                    "request messages are identified by (message type, request data)")
     level = "proof"   # the transport hypotheses are sampled, not proved: said in level_text and level_note
     level_text = ("Machine-checked proof (Coq) that for every well-formed test case of the deterministic fragment - any stream type, any number of "
@@ -259,7 +394,7 @@ class C02(Prop):
                 t[3] = [list(base) for _ in range(nreq)]
             yield ["c02.expect", [t]]
         # 2. random suites, a third with malformed members
-        for i in range(1200 if quick else 30000):
+        for i in range(2000 if quick else 30000):
             n = rng.randint(1, 4)
             bad = rng.random() < 0.34
             tests = []
@@ -275,7 +410,7 @@ class C02(Prop):
     # which would start hundreds of servers
     def live_cases(self, rng, tier):
         quick = tier == "quick"
-        plan = [((0, 0), 5 if quick else 40, 8), ((0, 1), 1 if quick else 10, 8), ((1, 0), 1 if quick else 10, 8), ((1, 1), 1 if quick else 10, 8)]
+        plan = [((0, 0), 18 if quick else 40, 8), ((0, 1), 5 if quick else 10, 8), ((1, 0), 5 if quick else 10, 8), ((1, 1), 5 if quick else 10, 8)]
         fd_multi = []
         for (gc, gs), ncases, ntests in plan:
             cfgs = cfg_matrix(tier, gc, gs)
@@ -293,36 +428,20 @@ class C02(Prop):
                     tests.append(t)
                 for cf, ts in split_for_grpc_server(gs, cfgs, tests):
                     yield ["c02.live", [gc, gs], cf, ts]
-        # 4. targeted shapes the corpus lacks, every pair
+        # 4. targeted shapes, every pair, every run
         for gc, gs in [(0, 0), (0, 1), (1, 0), (1, 1)]:
             cfgs = cfg_matrix(tier, gc, gs)
-            tests = [
-                wf_test(rng, "more-responses", st=FULL, nreq=2, nresp=5, err=False, with_def=True),
-                wf_test(rng, "more-requests-error", st=FULL, nreq=4, nresp=2, err=True, with_def=True),
-                wf_test(rng, "half-immediate-error", st=HALF, nreq=3, nresp=0, err=True, with_def=True),
-                wf_test(rng, "fd-immediate-error-1", st=FULL, nreq=1, nresp=0, err=True, with_def=True),
-                wf_test(rng, "cs-error", st=CLIENT, nreq=3, err=True, with_def=True),
-                wf_test(rng, "ss-error-after", st=SERVER, nresp=3, err=True, with_def=True),
-                wf_test(rng, "unary-error", st=UNARY, err=True, with_def=True),
-                wf_test(rng, "no-def", st=HALF, nreq=2, with_def=False),
-                wf_test(rng, "cs-many", st=CLIENT, nreq=7, with_def=True),
-                wf_test(rng, "fd-many", st=FULL, nreq=6, nresp=6, with_def=True),
-            ]
-            if not gs:
-                tests.append(wf_test(rng, "cs-zero", st=CLIENT, nreq=0))
-                tests.append(wf_test(rng, "fd-zero", st=FULL, nreq=0))
-            for cf, ts in split_for_grpc_server(gs, cfgs, tests):
-                yield ["c02.live", [gc, gs], cf, ts]
+            for tests in targeted_tests(rng, gs):
+                for cf, ts in split_for_grpc_server(gs, cfgs, tests):
+                    yield ["c02.live", [gc, gs], cf, ts]
         # 5. known-finding classes, each in a batch of its own
         if not fd_multi:
-            fd_multi = [wf_test(rng, "k0", st=FULL, nreq=2, nresp=0, err=True, with_def=True)]
+            fd_multi = [wf_test(rng, "k0", st=FULL, nreq=2, nresp=0, err=True, defs="first")]
         yield ["c02.live", [0, 0], [[2, 1, 1, 1, 0], [2, 2, 1, 2, 0]], fd_multi[:2]]
         if not quick:
             yield ["c02.live", [0, 1], [[2, 2, 1, 1, 0]], [wf_test(rng, "z0", st=CLIENT, nreq=0)]]
             yield ["c02.live", [0, 1], [[1, 3, 1, 1, 0], [1, 3, 1, 2, 0]],
                    [wf_test(rng, "h%d" % i, st=HALF, nreq=3, with_def=True) for i in range(4)]]
-
-
 
     def extra(self, ctx):
         rng = random.Random(ctx.seed * 7919 + 20002)
